@@ -28,6 +28,8 @@ func (s *trSuite) run(label string, steps []tStep) {
 	r := newTrRig(s.res, 1)
 	out := tCaseOut{id: s.id}
 	owner := map[uint64]chidTok{} // the harness's own request -> channel table
+	queued := map[chidTok]int{}   // messages handed to ResumeChannel while the requester was away, not yet delivered
+	regd := map[chidTok]bool{}    // per-channel stores graphsync has registered (the harness's own count of its registry)
 	nextOut := uint64(100)
 	for i, st := range steps {
 		chansBefore, _ := r.tr.VerifSnapshot()
@@ -48,6 +50,29 @@ func (s *trSuite) run(label string, steps []tStep) {
 			break
 		}
 		// ----- direct monitors -----
+		// C16: a registered per-channel store is the channel's for its whole lifetime: used by every request
+		// opened or answered for the channel, unregistered by cleanup and by nothing else
+		hadStore := map[chidTok]bool{}
+		for k, v := range regd {
+			hadStore[k] = v
+		}
+		for _, c := range o.Cmds {
+			if c.Kind == "GRegisterStore" && c.OK {
+				regd[c.K] = true
+			}
+			if c.Kind == "GUnregisterStore" {
+				if st.Kind != "cleanup" || st.K != c.K {
+					fail("C16", "store-unregistered-outside-cleanup", "a channel's store was unregistered by something other than the channel's cleanup")
+				}
+				delete(regd, c.K)
+			}
+		}
+		if st.Kind == "cleanup" && hadStore[st.K] && regd[st.K] {
+			fail("C16", "store-left-registered-after-cleanup", "the channel's store is still registered with graphsync after the channel's cleanup")
+		}
+		if st.Kind == "open" && hadStore[st.K] && o.Ret != nil && *o.Ret && (o.Store == nil || *o.Store != st.K) {
+			fail("C16", "channel-store-not-used", "a request opened for a channel that has a registered store does not use that store")
+		}
 		switch st.Kind {
 		case "open":
 			owner[nextOut] = st.K
@@ -85,6 +110,9 @@ func (s *trSuite) run(label string, steps []tStep) {
 						fail("C16", "channel-id-not-from-authenticated-peer", "the channel id of an incoming request is not built from the graphsync peer")
 					}
 				}
+				if o.Valid && hadStore[want] && (o.Store == nil || *o.Store != want) {
+					fail("C16", "channel-store-not-used", "a request answered for a channel that has a registered store does not use that store")
+				}
 				if o.Valid {
 					owner[st.Rid] = want
 					// C10: messages queued while the requester was away are delivered once, now
@@ -98,10 +126,16 @@ func (s *trSuite) run(label string, steps []tStep) {
 						if n != cb.PendingExtensions {
 							fail("C10", "pending-messages-not-delivered-once", fmt.Sprintf("%d queued messages, %d delivered on the next request", cb.PendingExtensions, n))
 						}
+						// ... counted by the harness itself, not read from the transport's bookkeeping
+						if n != queued[want] {
+							fail("C10", "queued-messages-not-delivered-exactly-once", fmt.Sprintf("%d messages were queued while the requester was away since the last delivery, %d were delivered on this request", queued[want], n))
+						}
+						queued[want] = 0
 					}
 				}
 			}
 		case "cleanup":
+			delete(queued, st.K)
 			for rid, k := range owner {
 				if k == st.K {
 					delete(owner, rid)
@@ -161,6 +195,7 @@ func (s *trSuite) run(label string, steps []tStep) {
 			}
 			if (st.Kind == "goutgoingblock" || st.Kind == "gblocksent") && !st.OnWire && len(o.Calls) != 0 {
 				fail("C16", "off-wire-block-accounted", "a block that was not put on the wire produced queued/sent accounting")
+				fail("C07", "off-wire-block-accounted", "a block that was not put on the wire (skipped after a restart) was reported as queued / sent and would be counted")
 			}
 			if st.Kind == "gincomingblock" && known && len(o.Calls) == 1 && o.Calls[0].Unique != st.OnWire {
 				fail("C07", "received-unique-flag", "a received block's uniqueness is not 'was on the wire'")
@@ -179,6 +214,9 @@ func (s *trSuite) run(label string, steps []tStep) {
 				}
 			}
 		case "pause", "resume", "close":
+			if cb, ok := chansBefore[r.chidReal(st.K)]; ok && st.Kind == "resume" && st.Msg != nil && cb.RequesterCancelled && cb.RequestID != nil {
+				queued[st.K]++
+			}
 			if cb, ok := chansBefore[r.chidReal(st.K)]; ok {
 				for _, c := range o.Cmds {
 					if (c.Kind == "GPause" || c.Kind == "GUnpause" || c.Kind == "GCancel") && (cb.RequestID == nil || c.Rid != r.tokOfRid(*cb.RequestID)) {
@@ -247,6 +285,13 @@ func runTransport(dir string, seed uint64, tier string) {
 			rs = append(rs, tStep{Kind: "resume", K: kr}, tStep{Kind: "gincomingrequest", P: 2, Rid: 2, Msg: func() *msgSpec { m := restartReq(6, true); return &m }()},
 				tStep{Kind: "gincomingrequest", P: 2, Rid: 3, Msg: func() *msgSpec { m := restartReq(6, true); return &m }()}, tStep{Kind: "gincomingblock", Rid: 1, Size: 5, Index: 1, OnWire: true})
 			s.run(fmt.Sprintf("restart-responder queued=%d", nq), rs)
+			// the requester goes away a second time: what was delivered is not delivered again
+			rs2 := append(append([]tStep(nil), rs[:len(rs)-2]...), tStep{Kind: "grequestorcancelled", Rid: 2})
+			if nq%2 == 1 {
+				rs2 = append(rs2, tStep{Kind: "resume", K: kr, Msg: pushResp(uint64(6))})
+			}
+			rs2 = append(rs2, tStep{Kind: "gincomingrequest", P: 2, Rid: 3, Msg: func() *msgSpec { m := restartReq(6, true); return &m }()})
+			s.run(fmt.Sprintf("restart-responder twice queued=%d", nq), rs2)
 		}
 	}
 	// (c) generated callback sequences over several channels and requests, cleanup anywhere
